@@ -183,7 +183,7 @@ func runDict(id int, c *dictCase, rev bool) dictLine {
 	for _, code := range []uint32{5001, 5002, 5003, 5004} {
 		keys = append(keys, dKey{Code: code})
 	}
-	for _, n := range []string{"X-A", "X-B", "X-C", "X-D", "X-Z"} {
+	for _, n := range []string{"X-A", "X-B", "X-C", "X-D", "X-E", "X-R", "X-S", "X-Z"} {
 		keys = append(keys, dKey{ByName: true, Name: n})
 	}
 	vendors := []int64{0, 10, 20, 30, -1}
